@@ -1061,6 +1061,8 @@ def build_struct(target_host: str, banner: Optional['Banner'], kex: Optional['SS
         res['kex'] = []
         dh_alg_sizes = kex.dh_modulus_sizes()
         for algorithm in kex.kex_algorithms:
+            if len(algorithm.strip()) == 0:  # Skip empty names (an empty name-list is parsed as ['']), like the text output does.
+                continue
             alg_notes = fetch_notes(algorithm, 'kex')
             entry: Any = {
                 'algorithm': algorithm,
@@ -1073,6 +1075,8 @@ def build_struct(target_host: str, banner: Optional['Banner'], kex: Optional['SS
         res['key'] = []
         host_keys = kex.host_keys()
         for algorithm in kex.key_algorithms:
+            if len(algorithm.strip()) == 0:  # Skip empty names (an empty name-list is parsed as ['']), like the text output does.
+                continue
             alg_notes = fetch_notes(algorithm, 'key')
             entry = {
                 'algorithm': algorithm,
@@ -1098,6 +1102,8 @@ def build_struct(target_host: str, banner: Optional['Banner'], kex: Optional['SS
 
         res['enc'] = []
         for algorithm in kex.server.encryption:
+            if len(algorithm.strip()) == 0:  # Skip empty names (an empty name-list is parsed as ['']), like the text output does.
+                continue
             alg_notes = fetch_notes(algorithm, 'enc')
             entry = {
                 'algorithm': algorithm,
@@ -1107,6 +1113,8 @@ def build_struct(target_host: str, banner: Optional['Banner'], kex: Optional['SS
 
         res['mac'] = []
         for algorithm in kex.server.mac:
+            if len(algorithm.strip()) == 0:  # Skip empty names (an empty name-list is parsed as ['']), like the text output does.
+                continue
             alg_notes = fetch_notes(algorithm, 'mac')
             entry = {
                 'algorithm': algorithm,
